@@ -37,8 +37,8 @@ SideRefusals ==
     LET m == aux[i].arg1  r == aux[i].res1  cls == st[i].cls
     IN /\ (m = <<>>) => IsErr(r)
        /\ (m # <<>> /\ m[1] # PeerSide(cls)) => IsErr(r)
-       /\ (m # <<>> /\ cls \in {"A", "B"} /\ m[1] = SideByte(cls)) => r = Err("OffSides")
-       /\ (m # <<>> /\ cls = "S" /\ m[1] \in {65, 66}) => r = Err("OffSides")
+       /\ (m # <<>> /\ ~aux[i].early /\ cls \in {"A", "B"} /\ m[1] = SideByte(cls)) => r = Err("OffSides")
+       /\ (m # <<>> /\ ~aux[i].early /\ cls = "S" /\ m[1] \in {65, 66}) => r = Err("OffSides")
        /\ (m # <<>> /\ m[1] = PeerSide(cls) /\ ~aux[i].early /\ Tail(m) = st[i].out) => IsErr(r)
        /\ (m # <<>> /\ m[1] = PeerSide(cls) /\ ~aux[i].early /\ Tail(m) = st[i].out
              /\ ~(GRefusesIdentity(st[i].ps.grp) /\ st[i].out = GEnc(st[i].ps.grp, GIdentity(st[i].ps.grp))))
